@@ -538,4 +538,29 @@ example : HasDerivAt (fun x => eval realOps (exEnvReal.setVar 0 x) exGuardReal)
     (eval realOps exEnvReal (D 0 exGuardReal)) (exEnvReal.var 0) :=
   D_is_analytic_derivative_real exEnvReal 0 exGuardReal exGuardReal_interior
 
+
+/-! ## 10. no hidden memory -/
+
+/-- **evaluateCsr_no_memory.** `evaluate_csr_jacobian` (and `evaluate`) depend on the evaluator state only through the
+structure frozen by `set_structure` and the CURRENT leaf values: two states that agree on those give the same Jacobian,
+whatever was evaluated before and however the values got there (`load_var_values_from_x`, or `Var.value = …` /
+`Param.value = …` written directly, `Model.setVar` / `Model.setParam`). In particular the branch of a conditional
+constraint is re-selected from the current values at every Jacobian evaluation (`csr_rows_conditional`); an evaluator
+that remembers the branch picked by the last `evaluate()` contradicts this theorem. -/
+theorem evaluateCsr_no_memory {α : Type} (O : Ops α) (I : InfVals α) (e1 e2 : Evaluator α) (hst : e1.st = e2.st)
+    (hss : e1.structureSet = e2.structureSet) (hn : e1.cons.length = e2.cons.length)
+    (hv : leafValues O I e1 = leafValues O I e2) :
+    e1.evaluateCsr O I = e2.evaluateCsr O I ∧ e1.evaluate O I = e2.evaluate O I :=
+  evaluate_no_memory O I e1 e2 hst hss hn hv
+
+/-- writing a value directly (`var.value = x`, `param.value = x`) does not touch the frozen structure: the next Jacobian
+is the one `csr_rows` describes at the new values -/
+theorem setValue_keeps_structure {α : Type} (m : Model α) (i : Nat) (x : α) :
+    (m.setVar i x).ev.st = m.ev.st ∧ (m.setVar i x).ev.structureSet = m.ev.structureSet ∧
+    (m.setVar i x).ev.cons = m.ev.cons ∧ (m.setVar i x).ev.ifCons = m.ev.ifCons ∧
+    (m.setParam i x).ev.st = m.ev.st ∧ (m.setParam i x).ev.structureSet = m.ev.structureSet ∧
+    (m.setParam i x).ev.cons = m.ev.cons ∧ (m.setParam i x).ev.ifCons = m.ev.ifCons := by
+  simp only [Model.setVar, Model.setParam]
+  refine ⟨?_, ?_, ?_, ?_, ?_, ?_, ?_, ?_⟩ <;> split <;> rfl
+
 end Wntr.Aml
